@@ -53,15 +53,55 @@ fn nav<'a>(v: &'a mut Value, p: &[PointerNode], how: usize) -> Option<&'a mut Va
 }
 fn slot_ix(s: &J) -> usize { s.as_str().unwrap()[1..].parse::<usize>().unwrap() - 1 }
 
-struct World { slots: Vec<Option<Value>>, created: usize, freed0: usize }
+/// one deserializer over a stream text (the text is owned here; `de` borrows it and is dropped first)
+struct DeSess { de: Option<sonic_rs::Deserializer<sonic_rs::Read<'static>>>, _text: Box<[u8]> }
+impl Drop for DeSess { fn drop(&mut self) { self.de = None; } }
+// only ever used from the replay's main thread (de_* steps are not moved to worker threads); World as a whole is handed to them
+unsafe impl Send for DeSess {}
+struct World { slots: Vec<Option<Value>>, created: usize, freed0: usize, de: Option<DeSess> }
 impl World {
     fn live(&self) -> i64 { self.created as i64 - (sonic_rs::value::shared::VERIF_SHARED_FREED.load(Ordering::SeqCst) - self.freed0) as i64 }
 }
 
 /// executes one step; returns Err(description) when the implementation deviates in the step itself
-fn step(w: &mut World, op: &J, how: usize) -> Result<(), String> {
+fn step(w: &mut World, op: &J, how: usize, rest: &[J]) -> Result<(), String> {
     let name = op["op"].as_str().unwrap();
     match name {
+        "de_next" => {
+            let s = slot_ix(&op["s"]);
+            if w.de.is_none() {
+                // the stream: a leading scalar (consumed here: it is the one value parsed in place), then the texts of the
+                // coming de_next steps in order, a malformed value where the history has de_bad, and more values after it
+                let mut text = b"0 ".to_vec();
+                for o in std::iter::once(op).chain(rest.iter()) {
+                    match o["op"].as_str().unwrap() {
+                        "de_next" => { text.extend_from_slice(o["text"].as_str().unwrap().as_bytes()); text.push(b' '); }
+                        "de_bad" => { text.extend_from_slice(b"nul {\"id\":\"OTHER\",\"tags\":[\"x\",\"y\"]} \"last\" [7,[8]] "); break; }
+                        "de_close" => break,
+                        _ => {}
+                    }
+                }
+                let text: Box<[u8]> = text.into_boxed_slice();
+                // the deserializer borrows the boxed text, which lives (at a stable address) until after the deserializer is dropped
+                let slice: &'static [u8] = unsafe { std::slice::from_raw_parts(text.as_ptr(), text.len()) };
+                let mut de = sonic_rs::Deserializer::from_slice(slice);
+                let first: Value = de.deserialize().map_err(|e| format!("de_next: leading scalar: {e}"))?;
+                drop(first);
+                w.created += 2;       // the leading scalar's own arena (made for the in-place parse, released with it) and the arena
+                                      // shared by all later values of this deserializer, which comes into being with the next call
+                w.de = Some(DeSess { de: Some(de), _text: text });
+            }
+            let de = w.de.as_mut().unwrap().de.as_mut().unwrap();
+            let v: Value = de.deserialize().map_err(|e| format!("de_next: {e}"))?;
+            w.slots[s] = Some(v);
+        }
+        "de_bad" => {
+            let de = w.de.as_mut().ok_or("de_bad: no deserializer")?.de.as_mut().unwrap();
+            if de.deserialize::<Value>().is_ok() { return Err("de_bad: the malformed value was accepted".into()); }
+            // the caller keeps going (skipping a bad record): whatever these calls return, values handed out before stay intact
+            for _ in 0..4 { let r = de.deserialize::<Value>(); if let Ok(v) = r { let _ = plain(&v); drop(v); } }
+        }
+        "de_close" => { w.de = None; }
         "parse" => { let s = slot_ix(&op["s"]); let v: Value = sonic_rs::from_str(op["text"].as_str().unwrap()).map_err(|e| e.to_string())?; w.created += 1; w.slots[s] = Some(v); }
         "parse_bad" => {
             // rejected only after the arena was built: must return Err and leave nothing alive
@@ -91,6 +131,15 @@ fn step(w: &mut World, op: &J, how: usize) -> Result<(), String> {
             })();
             w.slots[src] = Some(other);
             r?;
+        }
+        "probe" => {
+            // a lookup step that does not resolve: None, and (checked by the observation after the step) nothing changes
+            let s = slot_ix(&op["s"]);
+            let p = ptr_of(&op["p"]);
+            let e = ptr_of(&json!([op["e"]]));
+            let tgt = nav(w.slots[s].as_mut().ok_or("probe: empty slot")?, &p, how).ok_or("probe: path does not resolve")?;
+            let hit = if how % 2 == 0 { tgt.pointer_mut(e.iter()).is_some() } else { match &e[0] { PointerNode::Key(k) => tgt.get_mut(k.as_str()).is_some(), PointerNode::Index(i) => tgt.get_mut(*i).is_some() } };
+            if hit { return Err("probe: a lookup the reference cannot resolve returned a value".into()); }
         }
         "mut" => {
             let s = slot_ix(&op["s"]);
@@ -209,12 +258,13 @@ pub fn replay(args: &[String]) -> i32 {
         for op in hist.iter() { *counts.entry(format!("{}{}", op["op"].as_str().unwrap(), op.get("f").and_then(|f| f.as_str()).map(|f| format!(":{}", f)).unwrap_or_default())).or_default() += 1; }
         let b0 = live();
         let mut failed = false;
-        let mut w = World { slots: vec![None, None, None, None], created: 0, freed0: sonic_rs::value::shared::VERIF_SHARED_FREED.load(Ordering::SeqCst) };
+        let mut w = World { slots: vec![None, None, None, None], created: 0, freed0: sonic_rs::value::shared::VERIF_SHARED_FREED.load(Ordering::SeqCst), de: None };
         let mut had_mut_on_parsed = false;
         for (i, op) in hist.iter().enumerate() {
             steps += 1;
             if op["op"] == "mut" || op["op"] == "append" { had_mut_on_parsed = true; }
-            let r = if threaded { std::thread::scope(|sc| sc.spawn(|| catch(|| step(&mut w, op, how))).join().unwrap_or_else(|_| Err("thread died".into()))) } else { catch(|| step(&mut w, op, how)) };
+            let rest = &hist[i + 1..];
+            let r = if threaded && !op["op"].as_str().unwrap().starts_with("de_") { std::thread::scope(|sc| sc.spawn(|| catch(|| step(&mut w, op, how, rest))).join().unwrap_or_else(|_| Err("thread died".into()))) } else { catch(|| step(&mut w, op, how, rest)) };
             let problem = match r { Ok(Ok(())) => None, Ok(Err(e)) => Some(e), Err(p) => Some(format!("panic: {p}")) };
             let mut why = problem;
             let mut arena_mismatch = false;
@@ -236,6 +286,7 @@ pub fn replay(args: &[String]) -> i32 {
             }
         }
         if had_mut_on_parsed { promos += 1; }
+        if threaded && !failed { w.de = None; }
         if threaded && !failed {
             // concurrent readers + droppers: each remaining value goes to its own thread (the slot's clone stays with a second thread),
             // all start together, read the whole value, then drop it; the expectation is the model's last observation
@@ -269,5 +320,77 @@ pub fn replay(args: &[String]) -> i32 {
     }
     let summary = json!({"suite":"dom-replay","histories":hcount,"steps":steps,"nontrivial":promos,"per_op":counts,"mismatches":mism,"samples":samples});
     std::fs::write(format!("{outdir}/summary.{shard}.json"), serde_json::to_vec(&summary).unwrap()).unwrap();
+    0
+}
+
+/// Scale concretisation: the behaviours  parse [0, X] / parse {"k":0, "y":X} / a long string  with the repeated part iterated past
+/// the widths of the length and index fields of a node (2^16, 2^24 children / bytes).  Expected: what the short behaviour
+/// says, member for member: length, the arena-node members at the far end read in place, cloned out and read after the
+/// document is dropped, and the canonical text reproduced byte for byte by to_string.
+pub fn big(args: &[String]) -> i32 {
+    let out = arg(args, "--out").expect("--out").to_string();
+    let quick = arg(args, "--tier") != Some("thorough");
+    let mut mism: Vec<J> = Vec::new();
+    let mut cases = 0u64;
+    let counts: &[usize] = if quick { &[(1 << 16) + 3, (1 << 24) + 5] } else { &[(1 << 16) - 1, 1 << 16, (1 << 16) + 3, (1 << 24) - 1, 1 << 24, (1 << 24) + 5, (1 << 25) + 1] };
+    let tail = "\"s\",[1,\"t\"],{\"k\":\"v\"},\"é\",-2.5";
+    let mut check = |name: String, text: String, f: &dyn Fn(&Value) -> Result<(), String>| {
+        cases += 1;
+        let r = catch(|| -> Result<(), String> {
+            let v: Value = sonic_rs::from_str(&text).map_err(|e| format!("rejected: {e}"))?;
+            f(&v)?;
+            let s = sonic_rs::to_string(&v).map_err(|e| e.to_string())?;
+            if s != text { return Err(format!("to_string differs from the canonical input (lengths {} vs {})", s.len(), text.len())); }
+            Ok(())
+        });
+        let why = match r { Ok(Ok(())) => return, Ok(Err(e)) => e, Err(p) => format!("panic: {p}") };
+        mism.push(json!({"suite":"big","class":"big","case":name,"why":format!("{name}: {why}")}));
+    };
+    for &n in counts {
+        // array with n leading zeros, then arena nodes
+        let mut t = String::with_capacity(2 * n + 64);
+        t.push('[');
+        for _ in 0..n { t.push_str("0,"); }
+        t.push_str(tail); t.push(']');
+        check(format!("array of {} + 5 elements", n), t, &|v| {
+            let a = v.as_array().ok_or("not an array")?;
+            if a.len() != n + 5 { return Err(format!("len {}", a.len())); }
+            if a[n].as_str() != Some("s") || a[n + 1][1].as_str() != Some("t") || a[n + 2]["k"].as_str() != Some("v") || a[n + 3].as_str() != Some("é") || a[n + 4].as_f64() != Some(-2.5) { return Err("far members read wrongly in place".into()); }
+            if v.pointer(&[PointerNode::Index(n + 2), PointerNode::Key("k".into())]).and_then(|x| x.as_str()) != Some("v") { return Err("pointer to a far member".into()); }
+            let keep: Vec<Value> = (n..n + 5).map(|i| a[i].clone()).collect();
+            let copy = v.clone();
+            if copy.as_array().map(|c| c.len()) != Some(n + 5) { return Err("clone of the document".into()); }
+            drop(copy);
+            if sonic_rs::to_string(&keep).map_err(|e| e.to_string())? != format!("[{tail}]") { return Err("members cloned out of the far end read wrongly".into()); }
+            Ok(())
+        });
+        if n <= (1 << 24) + 5 {
+            // object with n/2 leading members
+            let m = n / 2;
+            let mut t = String::with_capacity(8 * m + 64);
+            t.push('{');
+            for i in 0..m { t.push_str("\"k"); t.push_str(&(i % 10).to_string()); t.push_str("\":0,"); }
+            t.push_str("\"y\":[1,\"t\"],\"z\":\"s\"}");
+            check(format!("object of {} + 2 members", m), t, &|v| {
+                let o = v.as_object().ok_or("not an object")?;
+                if o.len() != m + 2 { return Err(format!("len {}", o.len())); }
+                if v["z"].as_str() != Some("s") || v["y"][1].as_str() != Some("t") { return Err("far members read wrongly in place".into()); }
+                let (last_k, last_v) = o.iter().last().ok_or("empty")?;
+                if last_k != "z" || last_v.as_str() != Some("s") { return Err("last member through iteration".into()); }
+                let keep = v["y"].clone();
+                if sonic_rs::to_string(&keep).map_err(|e| e.to_string())? != "[1,\"t\"]" { return Err("member cloned out of the far end".into()); }
+                Ok(())
+            });
+            // one long string (value and key)
+            let s: String = std::iter::repeat('a').take(n).collect();
+            check(format!("string of {} bytes", n), format!("[\"{s}\",{{\"{s}\":\"x\"}},\"end\"]"), &|v| {
+                if v[0].as_str().map(|x| x.len()) != Some(n) || v[1][s.as_str()].as_str() != Some("x") || v[2].as_str() != Some("end") { return Err("long string / key read wrongly".into()); }
+                Ok(())
+            });
+        }
+    }
+    let summary = json!({"suite":"big","cases":cases,"mismatches":mism,"counts":counts});
+    std::fs::create_dir_all(&out).ok();
+    std::fs::write(format!("{out}/summary.0.json"), serde_json::to_vec(&summary).unwrap()).unwrap();
     0
 }
